@@ -46,9 +46,8 @@ def member(v, rt, stats=None):
     if k == "list":
         return isinstance(v, list) and all(member(e, rt[1], stats) for e in list.__iter__(v))
     if k == "set":
-        return isinstance(v, (set, frozenset)) and all(
-            member(e, rt[1], stats) for e in (set.__iter__(v) if isinstance(v, set) else frozenset.__iter__(v))
-        )
+        # typing.Set is builtins.set: a frozenset is not one (that would be FrozenSet / AbstractSet)
+        return isinstance(v, set) and all(member(e, rt[1], stats) for e in set.__iter__(v))
     if k in ("dict", "defaultdict"):
         if k == "defaultdict" and not isinstance(v, collections.defaultdict):
             return False
